@@ -979,6 +979,187 @@ def gen_misc(repo, report):
     return '\n'.join(out) + '\n'
 
 
+# ----------------------------------------------------------------------------------------------------
+# 5. layers/columns.py: CachedColumn (whole-body patterns; the progress bar is presentation and is stripped)
+# ----------------------------------------------------------------------------------------------------
+class _StripProgress(ast.NodeTransformer):
+    def visit_Call(self, node):
+        self.generic_visit(node)
+        if isinstance(node.func, ast.Name) and node.func.id == 'tqdm' and node.args:
+            return node.args[0]
+        return node
+
+
+def gen_columns(repo, report):
+    path = os.path.join(repo, 'connectome', 'layers/columns.py')
+    src, tree = parse(path)
+    cc = find_class(tree, 'CachedColumn')
+    cl = find_class(tree, 'CacheColumns')
+
+    def note(kernel, node):
+        report['kernels'].append({'kernel': kernel, 'file': 'layers/columns.py', 'line': node.lineno, 'sha256_16': sha(src, node)})
+
+    want = {
+        '__init__': 'super().__init__(arity=3)\nself.graph=graph\nself.disk=disk\nself.ram=ram\nself.verbose=verbose\nself.shard_size=shard_size',
+        'compute_hash': 'value=(yield(Command.ParentHash,0))\nreturn(value,None)',
+        '_hash_graph': 'returninputs[0]',
+        'evaluate': "output=(yield(Command.CurrentHash,))\nvalue,exists=self.ram.raw_get(output)\nifexists:\nreturnvalue\n"
+                    "key=(yield(Command.ParentValue,1))\nkeys=(yield(Command.ParentValue,2))\n"
+                    "keys,shards_count,shard_idx=self._get_shard(key,keys)\nhashes,states=([],[])\nforkinkeys:\n"
+                    "h,state=self.graph.get_hash(k)\nhashes.append(h)\nstates.append(state)\nifk==key:\nassertoutput==h,(output,h)\n"
+                    "compound=ApplyHash(tuple,*hashes)\ndigest,context=self.disk.prepare(compound)\n"
+                    "values,exists=self.disk.get(digest,context)\nifnotexists:\n"
+                    "values=tuple([self.graph.get_value(*state)forstateinstates])\nself.disk.set(digest,values,context)\n"
+                    "fork,h,valueinzip(keys,hashes,values):\nself.ram.raw_set(h,value)\nifk==key:\nresult=value\nreturnresult",
+    }
+    for name, w in want.items():
+        fn = find_func(cc.body, name)
+        if fn is None:
+            fail(path, cc, f'CachedColumn.{name} not found')
+        note(f'CachedColumn.{name}', fn)
+        body = fn.body
+        if name == 'evaluate':
+            # the progress bar and its caption are presentation
+            fn2 = _StripProgress().visit(ast.parse(ast.unparse(fn)).body[0])
+            body = [st for st in ast.walk(fn2) if False] or fn2.body
+
+            def drop_suffix(stmts):
+                out = []
+                for st in stmts:
+                    if isinstance(st, ast.Assign) and len(st.targets) == 1 and isinstance(st.targets[0], ast.Name) and st.targets[0].id == 'suffix':
+                        continue
+                    for fld in ('body', 'orelse'):
+                        if hasattr(st, fld) and isinstance(getattr(st, fld), list):
+                            setattr(st, fld, drop_suffix(getattr(st, fld)))
+                    out.append(st)
+                return out
+            body = drop_suffix(body)
+        if norm(body) != w:
+            fail(path, fn, f'CachedColumn.{name} changed')
+    # the stores of the layer and what each column is built from
+    init = find_func(cl.body, '__init__')
+    note('CacheColumns.__init__', init)
+    ni = norm(init.body)
+    if 'self.ram=MemoryCache(None)' not in ni or \
+            'self.disk=DiskCache(PickleKeyStorage(index,storage,serializer,algorithm=storage.algorithm),labels=labels)' not in ni:
+        fail(path, init, 'the stores of CacheColumns changed')
+    pc = find_func(cl.body, '_prepare_container')
+    note('CacheColumns._prepare_container', pc)
+    npc = norm(pc.body)
+    for piece in ('graph=copy.compile().compile(name)',
+                  'edges.append(CachedColumn(self.disk,self.ram,graph,self.verbose,self.shard_size).bind([inp,key,keys],out))',
+                  "property_name='ids'", 'key=Node(copy.inputs[0].name,details)', 'keys=Node(property_name,details)'):
+        if piece not in npc:
+            fail(path, pc, f'CacheColumns._prepare_container lost `{piece}`')
+    return COLUMNS_GEN
+
+
+COLUMNS_GEN = '''(* GENERATED by tools/translate.py (layers/columns.py: CachedColumn). Do not edit. *)
+From Connectome Require Import Values MiscGen ColStore.
+
+(* CachedColumn.compute_hash / _hash_graph: the hash of the column is the hash of the entry it caches (input 0) *)
+Definition column_hash_is_parent : nat := 0.
+(* CacheColumns._prepare_container: one compiled graph per cached name, all columns over the layer's two stores *)
+Definition columns_share_stores : bool := true.
+Definition column_inputs : list string := ["entry"; "key"; "keys"].
+
+Section ColumnEvaluate.
+Variables req deq : nhash -> nhash -> bool.          (* NodeHash.__eq__ (dict keys of the RAM table); equal digests *)
+Variable keq : val -> val -> bool.                    (* == on keys *)
+Variable sorted : list val -> list val.               (* sorted(keys) *)
+Variable get_hash : nat -> val -> option nhash.       (* self.graph.get_hash(k) of column col; None: a user function raised *)
+Variable get_value : nat -> val -> option val.        (* self.graph.get_value of the scratch state kept from get_hash *)
+
+Fixpoint index_of (key : val) (l : list val) : option nat :=
+  match l with [] => None | k :: t => if keq k key then Some 0 else option_map S (index_of key t) end.
+
+(* _get_shard; the closing `assert key in keys` is C08_shard_contains *)
+Definition get_shard (size : option nat) (key : val) (keys : list val) : exn + (list val * nat * nat) :=
+  let keys := sorted keys in
+  match index_of key keys with
+  | None => inl (EValue "The key is not present among the keys cached by this layer")
+  | Some pos =>
+      match size with
+      | None => inr (keys, 1, 0)
+      | Some size =>
+          if Nat.eqb size 0 then inl (EInternal "assert size > 0")
+          else let idx := shard_idx pos size in
+               inr (shard_keys keys size idx, shard_count (List.length keys) size, idx)
+      end
+  end.
+
+(* for k in keys: h, state = self.graph.get_hash(k); ...; if k == key: assert output == h *)
+Fixpoint hash_loop (col : nat) (output : nhash) (key : val) (ks : list val) : (exn + list nhash) * list cevent :=
+  match ks with
+  | [] => (inr [], [])
+  | k :: t =>
+      match get_hash col k with
+      | None => (inl (EUser "get_hash"), [CHash col k])
+      | Some h =>
+          if keq k key && negb (req output h) then (inl (EInternal "assert output == h"), [CHash col k])
+          else let (r, ev) := hash_loop col output key t in
+               (match r with inl e => inl e | inr hs => inr (h :: hs) end, CHash col k :: ev)
+      end
+  end.
+
+(* tuple([self.graph.get_value of the scratch state kept from get_hash for state in states]) *)
+Fixpoint value_loop (col : nat) (ks : list val) : (exn + list val) * list cevent :=
+  match ks with
+  | [] => (inr [], [])
+  | k :: t =>
+      match get_value col k with
+      | None => (inl (EUser "get_value"), [CValue col k])
+      | Some v => let (r, ev) := value_loop col t in
+                  (match r with inl e => inl e | inr vs => inr (v :: vs) end, CValue col k :: ev)
+      end
+  end.
+
+(* for k, h, value in zip(keys, hashes, values): self.ram.raw_set(h, value); if k == key: result = value *)
+Fixpoint ram_fill (st : colstore) (hs : list nhash) (vals : list val) : colstore :=
+  match hs, vals with h :: hs', v :: vs' => ram_fill (ram_set st h v) hs' vs' | _, _ => st end.
+Fixpoint pick (key : val) (ks : list val) (vals : list val) (acc : option val) : option val :=
+  match ks, vals with
+  | k :: ks', v :: vs' => pick key ks' vs' (if keq k key then Some v else acc)
+  | _, _ => acc
+  end.
+
+Definition finish (st : colstore) (key : val) (ks : list val) (hs : list nhash) (vals : list val) (ev : list cevent)
+  : cres * colstore * list cevent :=
+  let st' := ram_fill st hs vals in
+  match pick key ks vals None with
+  | Some r => (COk r, st', ev)
+  | None => (CErr (EInternal "result is not bound"), st', ev)
+  end.
+
+Definition column_evaluate (col : nat) (size : option nat) (output : nhash) (key : val) (keys : list val) (st : colstore)
+  : cres * colstore * list cevent :=
+  match ram_get req st output with
+  | Some v => (COk v, st, [])
+  | None =>
+      match get_shard size key keys with
+      | inl e => (CErr e, st, [CKeyReq; CKeysReq])
+      | inr (ks, _, _) =>
+          match hash_loop col output key ks with
+          | (inl e, ev) => (CErr e, st, CKeyReq :: CKeysReq :: ev)
+          | (inr hs, ev) =>
+              let compound := HApply "builtins.tuple" hs [] in
+              match disk_get deq st compound with
+              | Some (VTuple vals) => finish st key ks hs vals (CKeyReq :: CKeysReq :: ev)
+              | Some _ => (CErr (EInternal "the stored shard is not a tuple"), st, CKeyReq :: CKeysReq :: ev)
+              | None =>
+                  match value_loop col ks with
+                  | (inl e, ev2) => (CErr e, st, CKeyReq :: CKeysReq :: ev ++ ev2)
+                  | (inr vals, ev2) =>
+                      finish (disk_set st compound (VTuple vals)) key ks hs vals (CKeyReq :: CKeysReq :: ev ++ ev2)
+                  end
+              end
+          end
+      end
+  end.
+End ColumnEvaluate.
+'''
+
+
 def write_if_changed(path, text):
     if os.path.exists(path) and open(path).read() == text:
         return False
@@ -1001,7 +1182,7 @@ def main():
     report = {'kernels': [], 'failures': [], 'files': {}}
     ok = True
     for fname, fn in (('EdgesGen.v', gen_edges), ('NodeHashGen.v', gen_nodehash), ('AntiSetGen.v', gen_antiset),
-                      ('MiscGen.v', gen_misc)):
+                      ('MiscGen.v', gen_misc), ('ColumnsGen.v', gen_columns)):
         try:
             text = fn(repo, report)
             changed = write_if_changed(os.path.join(outdir, fname), text)
